@@ -20,7 +20,7 @@ RULE = ("cases: a curve/surface/volume (rational or not, 2-D or 3-D) or a contai
 ASSUMPTIONS = ["nvmon.ref exact reference model for the input points; cos/sin of the angle from the math module (tolerance 1e-9*scale)"]
 FLOORS = {'quick': {'mapped-point': 3000, 'weights-unchanged': 150, 'inplace-semantics': 300, 'aggregate': 100},
           'thorough': {'mapped-point': 30000}}
-MANDATORY_TAGS = ['container:pattern', 'partial-evaluate-before', 'container:shape-listed-twice', 'container:equal-twins', 'unclamped', 'coarse-precision', 'translate', 'rotate', 'scale', 'container', 'single', 'inplace', 'copy', 'rational', 'axis0', 'axis1', 'axis2',
+MANDATORY_TAGS = ['small-unit-of-length', 'container:pattern', 'partial-evaluate-before', 'container:shape-listed-twice', 'container:equal-twins', 'unclamped', 'coarse-precision', 'translate', 'rotate', 'scale', 'container', 'single', 'inplace', 'copy', 'rational', 'axis0', 'axis1', 'axis2',
                   'dim2', 'pdim3', 'read-before-inplace', 'null-map', 'partially-iterated']
 TECHNIQUE = ("runtime monitoring: exact reference points of the input mapped by the exact affine map vs library evaluation of the "
              "result, plus object-identity / input-digest checks, under a seeded workload incl. containers")
@@ -44,6 +44,15 @@ def gen(rng, tier, shard, nshards):
                 sd_['normalize_kv'] = False
         yield {'kind': 'transform', 'shapes': shapes, 'container': nel > 0, 'op': rng.choice(['translate', 'rotate', 'scale']),
                'inplace': rng.random() < 0.5, 'seed': rng.randrange(1 << 30)}
+        if i % 6 == 4:
+            # the same in other units of length: a shape 2^-20 .. 2^-36 times as large (exact powers of two) is transformed exactly alike;
+            # every tolerance of this check is relative to the size of the shape
+            f_ = 2.0 ** -rng.choice([20, 30, 36])
+            shp = [G.rand_shape(rng, pdim, dim=dim, clamped_only=True, maxextra=3, maxdeg=3, pcls='uniform') for _ in range(max(1, nel))]
+            for sd_ in shp:
+                sd_['ctrlpts'] = [[c * f_ for c in p_] for p_ in sd_['ctrlpts']]
+            yield {'kind': 'transform', 'shapes': shp, 'container': nel > 0, 'op': rng.choice(['translate', 'rotate', 'scale', 'rotate']),
+                   'inplace': rng.random() < 0.5, 'seed': rng.randrange(1 << 30), 'unit': f_}
         if i % 6 == 2:
             # a pattern: copies of one shape a step apart (or doubled in size), transformed by exactly that step - afterwards element k
             # coincides with what element k + 1 was (distinct objects whose data become equal DURING the operation)
@@ -96,10 +105,14 @@ def check(case, ctx):
     else:
         obj = elems[0]
     sc = max(so.scale_of_defn(S) for S in defs)
+    unit = case.get('unit')
+    if unit:
+        ctx.tag('small-unit-of-length')
+        sc = max(abs(float(c)) for S in defs for t in S.net for c in S.cart(t))       # the true size (not floored at 1)
     # ---- the exact map ---------------------------------------------------------------------------------------------------
     op = case['op']
     if op == 'translate':
-        vec = [rng.choice([0.0, 1.0, -2.5, rng.uniform(-10, 10)]) for _ in range(dim)]
+        vec = [rng.choice([0.0, 1.0, -2.5, rng.uniform(-10, 10)]) * (unit or 1.0) for _ in range(dim)]
         if rng.random() < 0.12:
             vec = [rng.choice([0, 0.0]) for _ in range(dim)]      # the identity map is a translation too
             ctx.tag('null-map')
